@@ -173,7 +173,13 @@ def gen(rng, tier, plain=False):
     case = {'engine': 'N', 'flows': flows, 'sources': sources,
             'stages': gen_chain(rng, flows, rng.randint(1, 4), True, tick),
             'sink': {'rec_arrivals': rng.random() < 0.8, 'absolute': rng.random() < 0.5, 'rec_waits': rng.random() < 0.8,
-                     'by_flow': rng.random() < 0.6}}
+                     'by_flow': rng.random() < 0.6, 'debug': rng.random() < 0.1}}
+    if case['sink']['debug'] and not tick and rng.random() < 0.6:
+        # a burst of a dozen packets of one flow that reaches the sink within one instant
+        t_b = rng.choice([0, 1.0, 2.5])
+        sources.append({'kind': 'inj', 'id': 'ib', 'workload': [[t_b, flows[0], 64] for _ in range(12)]})
+        case['stages'] = [{'t': 'Wire', 'delays': [0.25], 'loss': None, 'draws': [0.5]}] if rng.random() < 0.5 else \
+            [{'t': 'Port', 'rate': 0, 'qlimit': None, 'lb': False}]
     if tick:
         case['t0'] = rng.choice([10 ** 12, 2 ** 60 + 1, 1700000000123456789])
         for st in _all_stages(case['stages']):
@@ -219,7 +225,8 @@ class Builder:
         w = self.w
         o = self.case.get('sink', {})
         ps = PacketSink(w.env, rec_arrivals=o.get('rec_arrivals', True), absolute_arrivals=o.get('absolute', True),
-                        rec_waits=o.get('rec_waits', True), rec_flow_ids=o.get('by_flow', True))
+                        rec_waits=o.get('rec_waits', True), rec_flow_ids=o.get('by_flow', True),
+                        debug=bool(o.get('debug')))
         name = self.fresh('sink')
         self.sinks.append((name, ps))
         return InTap(w, name, ps)
